@@ -44,7 +44,7 @@ func rulesC10(r *Run) {
 	ruleRunPlanEntry(r, "R1")
 	ruleRecoverMachine(r, "R1")
 	ruleNoVaultCallInStreamLoop(r, "R1")
-	r.Expect("R1", 9)
+	r.Expect("R1", 10)
 
 	r.Kind("R2", "K7")
 	ruleRecoveryTerminal(r, "R2")
@@ -184,6 +184,16 @@ func ruleNewRecovers(r *Run, rule string, wantPositive bool) {
 	}
 	if wantPositive {
 		r.Check(rule, "New:recovers-when-enabled", fn.Decl.Pos(), badOn == "", "%s", orOK(badOn, "recovery enabled ⇒ recover() on every successful path"))
+		// D47: and a recovery that could not run is reported. recover() answers with the error of the search for Running plans
+		// and of reading them; New must not answer nil on top of it — the plans stay Running in the store with nobody
+		// executing them and nothing says so.
+		n, b, pos := propagation(fl, paths, execKey("Plans.recover"))
+		if pos == 0 {
+			pos = fn.Decl.Pos()
+		}
+		if n > 0 {
+			r.Check(rule, "New:recovery-failure-reported", pos, b == "", "%s", orOK(b, "the error of recover() reaches the caller of New"))
+		}
 	} else {
 		r.Check(rule, "New:nothing-resumed-when-disabled", fn.Decl.Pos(), badOff == "", "%s", orOK(badOff, "recovery disabled ⇒ neither recover() nor runPlan"))
 	}
